@@ -263,11 +263,12 @@ def replace_scan(ctx):
         gs = [_sh(strip_ver(g)) for g in gs]
         r = _sh(strip_ver(r))
         loc = b.loc(p.blocks[-1])
-        cond = [g for g in gs if re.match(r"^!?lt\(uninit\(\d+\), uninit\(\d+\)\)$", g)]
+        # loop condition pos < len, where len is the hoisted length of the input (a local, or resolved to len(search))
+        cond = [g for g in gs if re.match(r"^!?lt\(uninit\(\d+\), (uninit\(\d+\)|len\(a1\.search\))\)$", g)]
         if not cond:
             continue
-        m = re.match(r"^(!?)lt\(uninit\((\d+)\), uninit\((\d+)\)\)$", cond[0])
-        pos, ln = int(m.group(2)), int(m.group(3))
+        m = re.match(r"^(!?)lt\(uninit\((\d+)\), (?:uninit\((\d+)\)|len\(a1\.search\))\)$", cond[0])
+        pos, ln = int(m.group(2)), (int(m.group(3)) if m.group(3) else -1)
         POS = "uninit(%d)" % pos
         ms = [g for g in gs if g.lstrip("!").startswith("matches(a1, ")]
         if m.group(1) == "" and ms:
@@ -292,7 +293,7 @@ def replace_scan(ctx):
             elif first:
                 cs = [(e[1], [_sh(strip_ver(render(x))) for x in e[2]]) for e in p.effects if e[0] == "call"]
                 ext = [c for c in cs if c[0].endswith("::extend") or "Extend" in c[0]]
-                _rec(d, "tail-copied", any(c[1][1] in ("a1.search[Range::Range{start: %s, end: uninit(%d)}]" % (POS, ln), "iter(a1.search[Range::Range{start: %s, end: uninit(%d)}])" % (POS, ln)) for c in ext), "after the last match the tail search[pos..len] must be appended; extends %s" % [c[1][1][:60] for c in ext], loc)
+                _rec(d, "tail-copied", any(c[1][1] in tuple(f % (POS, e_) for f in ("a1.search[Range::Range{start: %s, end: %s}]", "iter(a1.search[Range::Range{start: %s, end: %s}])") for e_ in ("uninit(%d)" % ln, "len(a1.search)")) for c in ext), "after the last match the tail search[pos..len] must be appended; extends %s" % [c[1][1][:60] for c in ext], loc)
     for k in ("search-from-pos", "copy-before-match", "bump-after-empty-match", "resume-at-match-end", "no-match-unchanged", "tail-copied"):
         if k not in d:
             d[k] = [False, "replace() lost its %s clause" % k, b.loc()]
